@@ -1,7 +1,7 @@
 _OPTS = {"prop": "C44", "strata": "values", "strict_err": "simple", "allow": "null_lit", "deny": "or,subquery", "joins": "1"}
 ENTRY = {
     "level": "proof",
-    "families": [fam("SQL", 300, 15000, opts={"quick": _OPTS, "thorough": dict(_OPTS, sizes="tiny,small,mid")})],
+    "families": [fam("SQL", 300, 3000, opts={"quick": _OPTS, "thorough": dict(_OPTS, sizes="tiny,small,mid")})],
     "gen_items": [],
     "rule": "size stream (1 case in 12): VALUES lists of 1, 2, 999-1001, 1023-1025, 1500, 2048, 2049, 3000, 8192, 8193, 10001 rows, bare or under COUNT(*)/SUM/MIN/MAX; otherwise generated statements with a VALUES list of 1-5 rows x 1-3 literal columns (BIGINT/DOUBLE/VARCHAR/BOOLEAN/DATE, NULLs after the first row): "
             "bare VALUES, SELECT ... FROM (VALUES ...) v [WHERE], VALUES joined to generated tables (inner/outer/semi/anti/cross), VALUES aggregated; "
